@@ -10,6 +10,7 @@ PROPS = {
     'C13': ('theories/Properties/C13.v', ['ImageLayout', 'FormatNames'], 'c13'),
     'C02': ('theories/Properties/C02.v', [], 'c02'),
     'C04': ('theories/Properties/C04.v', [], 'c04'),
+    'C08': ('theories/Properties/C08.v', [], 'c08'),
     'C10': ('theories/Properties/C10.v', [], 'c10'),
     'C16': ('theories/Properties/C16.v', [], 'c16'),
     'C17': ('theories/Properties/C17.v', [], 'c17'),
